@@ -316,7 +316,7 @@ pub fn check_def() -> PropertyCheck {
   PropertyCheck {
     id: "C07",
     scenarios: vec![Box::new(C07)],
-    runs: (150_000, 30_000_000),
+    runs: (300_000, 30_000_000),
     rule: "case = operator (observe_on, delay d, delay_at, delay_subscription(_at), subscribe_on; local and _threads; d in {0,1,5,20}ms, instants before/at/after now) x hot timed source | cold source x executor policy (FIFO queue | any ready task may run next) x script of emit/complete/error/run-task-#k/advance/jump, then quiescence under the same policy; non-trivial = a run decision had >=2 ready tasks or the clock jumped over >=2 deadlines",
     assumptions: vec!["the any-ready-task policy is the sequential abstraction of a multi-worker pool (tasks never run in parallel here; the thread-mode arm of C10 covers that)"],
   }
